@@ -98,6 +98,16 @@ pub fn foreign_inputs() -> Vec<String> {
     }
     attrs.sort();
     attrs.dedup();
+    // every fix-up attribute on ONE tag: the adjusted names must stay pairwise distinct (attribute lists
+    // without duplicates) and each must be the table's value
+    let all_attrs: String = SVG_ATTR_FIXUPS.iter().enumerate().map(|(i, (l, _))| format!(" {l}={i}")).collect();
+    for tpl in ["<svg@>x", "<svg><g@>x", "<svg><feConvolveMatrix@/>", "<math@>x", "<div@>x", "<svg><foreignObject><p@>x"] {
+        v.push(tpl.replace('@', &all_attrs));
+    }
+    let all_foreign = " xlink:actuate=1 xlink:arcrole=2 xlink:href=3 xlink:role=4 xlink:show=5 xlink:title=6 xlink:type=7 xml:lang=8 xml:space=9 xmlns=a xmlns:xlink=b definitionurl=c href=d lang=e";
+    for tpl in ["<svg@>x", "<math@>x", "<svg><a@>x", "<div@>x"] {
+        v.push(tpl.replace('@', all_foreign));
+    }
     for a in &attrs {
         for tpl in [
             "<svg @=1>x", "<svg><g @=1>x", "<math @=1>x", "<math><mi @=1>x", "<div @=1>x", "<svg><font @=1>x", "<svg><foreignObject><p @=1>x", "<svg @=1 @=2>x",
